@@ -333,14 +333,85 @@ theorem decodeMap_flat (nested : Spec) (H : Good nested) (hd : hasDyn (impliedTy
           exact decodeMap_flat nested H hd rest t1 _ t' err' (mtInsert_flat ht hty hins) h
         · exact decodeMap_flat nested H hd rest t _ t' err' ht h
 
-theorem mtVal_flat {T : Ty} {p : String × MTree} {kids : List (String × MTree)}
-    (h : Flat T (.node (p :: kids))) : (mtVal (.node (p :: kids))).typeOf = .map T := by
-  obtain ⟨kids', he, hk⟩ := h
-  cases he
-  obtain ⟨k, t⟩ := p
-  obtain ⟨v, hv, hty⟩ := hk (k, t) (by simp)
-  simp only at hv; subst hv
-  simp [mtVal, mtVals, typeOf, hty]
+/-! ### `cty.MapVal` -/
+
+theorem mapVal_typeOf {kvs : List (String × Val)} {v : Val} (h : mapVal kvs = some v) :
+    v.typeOf = .map (mapElemTy kvs) ∧ kvs ≠ [] := by
+  simp only [mapVal] at h
+  split at h
+  · cases h
+  · rename_i hne
+    split at h
+    · cases h
+      refine ⟨rfl, ?_⟩
+      intro he; subst he; simp at hne
+    · cases h
+
+/-- the element type is the type of one of the values -/
+theorem mapElemTy_mem : ∀ (kvs : List (String × Val)), kvs ≠ [] → ∃ q ∈ kvs, q.2.typeOf = mapElemTy kvs
+  | [], h => absurd rfl h
+  | (k, v) :: rest, _ => by
+    simp only [mapElemTy]
+    split
+    · rename_i hd
+      cases rest with
+      | nil => exact ⟨(k, v), by simp, by simpa [mapElemTy] using ty_beq_eq hd⟩
+      | cons q rest =>
+        obtain ⟨q', hq', ht⟩ := mapElemTy_mem (q :: rest) (by simp)
+        exact ⟨q', List.mem_cons_of_mem _ hq', ht⟩
+    · exact ⟨(k, v), by simp, rfl⟩
+
+/-- a map built by `cty.MapVal` from values that all conform to `T` conforms to `map(T)` -/
+theorem mapVal_conforms {T : Ty} {kvs : List (String × Val)} {v : Val} (h : mapVal kvs = some v)
+    (hall : ∀ q ∈ kvs, conforms q.2.typeOf T = true) : conforms v.typeOf (.map T) = true := by
+  obtain ⟨hty, hne⟩ := mapVal_typeOf h
+  obtain ⟨q, hq, ht⟩ := mapElemTy_mem kvs hne
+  rw [hty, ← ht]
+  simp only [conforms]
+  exact hall q hq
+
+theorem mem_foldl_insertSorted {α β : Type} (f : β → String × α) :
+    ∀ (l : List β) (acc : List (String × α)) (q : String × α),
+      q ∈ l.foldl (fun acc p => insertSorted (f p).1 (f p).2 acc) acc → q ∈ acc ∨ ∃ p ∈ l, q = f p
+  | [], acc, q, h => Or.inl h
+  | p :: l, acc, q, h => by
+    simp only [List.foldl_cons] at h
+    rcases mem_foldl_insertSorted f l _ q h with h | ⟨p', hp', rfl⟩
+    · rcases mem_insertSorted _ _ _ _ h with rfl | h
+      · exact Or.inr ⟨p, by simp, rfl⟩
+      · exact Or.inl h
+    · exact Or.inr ⟨p', List.mem_cons_of_mem _ hp', rfl⟩
+
+theorem mtVals_flat {T : Ty} : ∀ (kids : List (String × MTree)) (vs : List (String × Val)),
+    (∀ p ∈ kids, ∃ v, p.2 = .leaf v ∧ v.typeOf = T) → mtVals kids = some vs → ∀ q ∈ vs, q.2.typeOf = T
+  | [], vs, _, h => by
+    simp only [mtVals, Option.some.injEq] at h
+    subst h; simp
+  | (k, t) :: kids, vs, hk, h => by
+    obtain ⟨v, hv, hty⟩ := hk (k, t) (by simp)
+    simp only at hv; subst hv
+    simp only [mtVals, mtVal] at h
+    split at h
+    · rename_i v' vs' hv' hvs'
+      cases hv'
+      cases h
+      intro q hq
+      rcases List.mem_cons.mp hq with rfl | hq
+      · exact hty
+      · exact mtVals_flat kids vs' (fun p hp => hk p (List.mem_cons_of_mem _ hp)) hvs' q hq
+    · cases h
+
+theorem mtVal_flat {T : Ty} {t : MTree} {v : Val} (h : Flat T t) (hv : mtVal t = some v) :
+    v.typeOf = .map T := by
+  obtain ⟨kids, rfl, hk⟩ := h
+  simp only [mtVal] at hv
+  split at hv
+  · rename_i vs hvs
+    have hall := mtVals_flat kids vs hk hvs
+    obtain ⟨hty, hne⟩ := mapVal_typeOf hv
+    obtain ⟨q, hq, ht⟩ := mapElemTy_mem vs hne
+    rw [hty, ← ht, hall q hq]
+  · cases hv
 
 /-! ### the main theorem -/
 
@@ -425,18 +496,17 @@ theorem decode_good : ∀ (s : Spec), wf s = true → okSpec s = true → Good s
     obtain ⟨rfl, hok⟩ := hok
     obtain ⟨⟨-, hd⟩, hw⟩ := hw
     simp only [impliedType, nestMap]
-    rw [if_neg (by decide), if_neg (by simp [hd])] at h
+    rw [if_neg (by simp [hd]), if_neg (by simp)] at h
     split at h
     · cases h
     · cases h; exact conforms_refl _
     · rename_i t e hne hm
-      cases h
       have hflat := decodeMap_flat nested (decode_good nested hw hok) hd _ _ _ _ _ ⟨[], rfl, by simp⟩ hm
-      obtain ⟨kids, rfl, hk⟩ := hflat
-      cases kids with
-      | nil => exact absurd rfl hne
-      | cons p kids =>
-        rw [mtVal_flat ⟨_, rfl, hk⟩]; exact conforms_refl _
+      split at h
+      · rename_i v' hv'
+        cases h
+        rw [mtVal_flat hflat hv']; exact conforms_refl _
+      · cases h
   | .blockObject type n nested, hw, hok => by
     intro attrs blocks labels v err h
     simp only [impliedType]; exact conforms_dyn _
@@ -448,7 +518,23 @@ theorem decode_good : ∀ (s : Spec), wf s = true → okSpec s = true → Good s
     · cases h; exact conforms_refl _
     · split at h
       · cases h; exact conforms_refl _
-      · cases h; exact conforms_refl _
+      · simp only at h
+        split at h
+        · split at h
+          · rename_i v' hv'
+            cases h
+            refine mapVal_conforms hv' ?_
+            intro q hq
+            rcases mem_foldl_insertSorted (fun p : String × Val × Bool => (p.1, p.2.1)) _ _ q hq with hq | ⟨p, hp, rfl⟩
+            · simp at hq
+            · obtain ⟨a, -, rfl⟩ := List.mem_map.mp hp
+              simp only
+              split
+              · rename_i hc
+                exact convert_conforms _ _ _ hc
+              · exact conforms_refl _
+          · cases h
+        · cases h; exact conforms_refl _
   | .blockLabel i, hw, hok => by
     intro attrs blocks labels v err h
     rw [decode.eq_11] at h
